@@ -97,12 +97,13 @@ func read(pf func() *parser.Parser, lastEventID string, onRetry func(int64), ign
 				lastEventID = f.Value
 				dirty = true
 			case parser.FieldNameRetry:
-				n, err := strconv.ParseInt(f.Value, 10, 64)
+				// The spec only allows ASCII digits here, so signs must be rejected as well.
+				n, err := strconv.ParseUint(f.Value, 10, 63)
 				if err != nil {
 					break
 				}
-				if n >= 0 && onRetry != nil {
-					onRetry(n)
+				if onRetry != nil {
+					onRetry(int64(n))
 					dirty = true
 				}
 			default:
